@@ -1,7 +1,7 @@
 """Algebraic identities of C03 (rules A1..A5, W1) on the formulas extracted by C03.run."""
 import sympy as sp
 from .. import sym, esign
-from ..tree import sx, walk, pp
+from ..tree import sx, walk, pp, strip_casts as strip_casts_
 from .C20 import deep_unwrap
 
 Q = 'romea::core::LambertConverter::'
@@ -318,5 +318,21 @@ def check_latitude_iteration(fx, R, d, Ldef):
     if res != 0:
         # try recognising 2*atan(X) - pi/2 with X -> T
         res = sp.simplify(sp.expand_power_base(res, force=True))
+    # A6 stopping tolerance: the update contracts with factor about e^2 <= 0.01, so stopping at |delta| < tol leaves at most tol*q/(1-q)
+    tolnode = None
+    for x in walk(L_['b']):
+        if x.get('k') == 'If':
+            cn = strip_casts_(x['c'])
+            if cn.get('k') == 'Bin' and cn['op'] in ('<', '<='):
+                tolnode = cn['r']
+    from ..tree import const_value as _cv
+    tol = _cv(tolnode) if tolnode is not None else None
+    if tol is None:
+        R.undecided('A6', 'computeLatitude:tolerance', 'exit test `|delta| < tolerance` with a folded constant not found')
+    else:
+        qf = 0.01
+        bound = 1e-11 * (1 - qf) / qf
+        R.check(0 < tol <= bound, 'A6', 'computeLatitude:tolerance', 'the latitude iteration stops at |delta| < %g; with contraction factor about e^2 <= 0.01 the error can reach %.3g rad, above the 1e-11 rad of the '
+                'statement (tolerance must not exceed %.3g)' % (tol, tol * qf / (1 - qf), bound), 'tolerance %g <= %.3g' % (tol, bound), loc, 'E-INT')
     R.check(res == 0, 'A5', 'computeLatitude:fixed-point', 'with L = L(phi) the update gives lat\' - phi = %s (should vanish: 2 atan(tan(pi/4+phi/2)) - pi/2 = phi)' % res,
             'true latitude is a fixed point of the update', loc, 'E-ALG')
